@@ -2,11 +2,14 @@ package props
 
 import (
 	"encoding/json"
+	"errors"
 	"fmt"
 	"math"
+	"os"
 	"sort"
 	"strconv"
 	"strings"
+	"syscall"
 	"unicode/utf8"
 
 	"github.com/aclements/go-moremath/graph"
@@ -51,6 +54,9 @@ type c18Dot struct {
 	// one backing array holding all attribute lists back to back; 1 = in node
 	// order, 2 = in reverse node order.
 	Shared int `json:"shared,omitempty"`
+	// Fail != 0: Fprint is also run on a writer that accepts
+	// (Fail-1) mod (len(text)+1) bytes and then returns an error.
+	Fail int `json:"fail,omitempty"`
 }
 
 type c18Sub struct {
@@ -61,20 +67,29 @@ type c18Sub struct {
 }
 
 type c18Case struct {
-	Kind  string      `json:"kind"` // g (explicit graph), large (generated), marks, dotstr
-	Adj   [][]int     `json:"adj,omitempty"`
-	Shape string      `json:"shape,omitempty"`
-	N     int         `json:"n,omitempty"`
-	Param uint64      `json:"param,omitempty"`
-	Roots []int       `json:"roots,omitempty"`
-	Parts int         `json:"parts,omitempty"`
-	Wt    [][]float64 `json:"wt,omitempty"` // dyadic weights, nil = unweighted
-	Eq    [][][]int   `json:"eq,omitempty"` // partners for Equal
-	Sub   *c18Sub     `json:"sub,omitempty"`
-	Dot   *c18Dot     `json:"dot,omitempty"`
-	Ops   [][2]int    `json:"ops,omitempty"`  // marks history: {op, id}
-	Zero  bool        `json:"zero,omitempty"` // marks history starts from the zero value, not NewNodeMarks()
-	S     []byte      `json:"s,omitempty"`    // DotString argument
+	Kind  string    `json:"kind"` // g (explicit graph), large (generated), marks, dotstr, print (Dot.Print to a redirected stdout)
+	Adj   [][]int   `json:"adj,omitempty"`
+	Shape string    `json:"shape,omitempty"`
+	N     int       `json:"n,omitempty"`
+	Param uint64    `json:"param,omitempty"`
+	Roots []int     `json:"roots,omitempty"`
+	Parts int       `json:"parts,omitempty"`
+	Wt    [][]mon.F `json:"wt,omitempty"` // edge weights (may be infinite), nil = unweighted
+	// Rep: the Go type through which the library sees the graph: 0 a pointer
+	// (*c18G), 1 the library's own slice type graph.IntGraph, 2 a struct held
+	// by value (c18VG; contains a slice, so it is not comparable).
+	Rep int `json:"rep,omitempty"`
+	// Lay: storage of the adjacency lists (small graphs): 0 one array per list
+	// with cap == len; 1 all lists back to back in one array, Out(i) is a
+	// sub-slice whose capacity runs over the following lists; 2 the same with
+	// a spare tail of canaries; 3 as 2 but laid out in reverse node order.
+	Lay  int       `json:"lay,omitempty"`
+	Eq   [][][]int `json:"eq,omitempty"` // partners for Equal
+	Sub  *c18Sub   `json:"sub,omitempty"`
+	Dot  *c18Dot   `json:"dot,omitempty"`
+	Ops  [][2]int  `json:"ops,omitempty"`  // marks history: {op, id}
+	Zero bool      `json:"zero,omitempty"` // marks history starts from the zero value, not NewNodeMarks()
+	S    []byte    `json:"s,omitempty"`    // DotString argument
 
 	noDistinct bool // bulk enumeration: do not store a hash per case
 }
@@ -97,6 +112,8 @@ func c18Judge(w *mon.W, c *c18Case) {
 		adj, _ := c18Shape(c.Shape, c.N, c.Param)
 		j := c18NewJ(w, c, adj, false)
 		j.run()
+	case "print":
+		c18JudgePrint(w, c)
 	case "marks":
 		c18JudgeMarks(w, c)
 	case "dotstr":
@@ -125,11 +142,154 @@ func (g *c18G) NumNodes() int   { g.tick(); return len(g.adj) }
 func (g *c18G) Out(i int) []int { g.tick(); return g.adj[i] }
 
 type c18WG struct {
-	c18G
+	*c18G
 	wt [][]float64
 }
 
 func (g *c18WG) OutWeight(i, e int) float64 { g.tick(); return g.wt[i][e] }
+
+// c18VG is a graph held by value. It contains a slice, so two interface
+// values holding a c18VG cannot be compared with ==. Calls are counted in c.
+type c18VG struct {
+	adj [][]int
+	c   *c18G
+}
+
+func (g c18VG) NumNodes() int   { g.c.tick(); return len(g.adj) }
+func (g c18VG) Out(i int) []int { g.c.tick(); return g.adj[i] }
+
+type c18VWG struct {
+	c18VG
+	wt [][]float64
+}
+
+func (g c18VWG) OutWeight(i, e int) float64 { g.c.tick(); return g.wt[i][e] }
+
+// c18Wrap presents lists to the library through representation rep; ctr
+// counts the calls (graph.IntGraph cannot count: no step budget there).
+func c18Wrap(rep int, lists [][]int, ctr *c18G) graph.Graph {
+	ctr.adj = lists
+	switch rep {
+	case 1:
+		return graph.IntGraph(lists)
+	case 2:
+		return c18VG{adj: lists, c: ctr}
+	}
+	return ctr
+}
+
+func c18WrapW(rep int, lists [][]int, wt [][]float64, ctr *c18G) graph.Graph {
+	ctr.adj = lists
+	if rep == 0 {
+		return &c18WG{c18G: ctr, wt: wt}
+	}
+	return c18VWG{c18VG: c18VG{adj: lists, c: ctr}, wt: wt}
+}
+
+// c18Store holds the adjacency lists the library sees. With lay != 0 all
+// lists are sub-slices of one array (as in a compressed-row graph, e.g. the
+// library's own SimplifyMulti result): the capacity of Out(i) runs on over the
+// lists laid out behind it and, for lay >= 2, over a spare tail of canaries.
+type c18Store struct {
+	lay      int
+	lists    [][]int
+	all      []int
+	pristine []int
+	reg      [][2]int // region of node u in all
+	used     int      // all[used:] is the spare tail
+}
+
+func c18NewStore(adj [][]int, lay int) *c18Store {
+	st := &c18Store{lay: lay}
+	if lay == 0 {
+		st.lists = c18CloneAdj(adj)
+		return st
+	}
+	n, m, maxl := len(adj), 0, 0
+	for _, l := range adj {
+		m += len(l)
+		if len(l) > maxl {
+			maxl = len(l)
+		}
+	}
+	tail := 0
+	if lay >= 2 {
+		tail = maxl + 3
+	}
+	st.all = make([]int, 0, m+tail)
+	st.reg = make([][2]int, n)
+	st.lists = make([][]int, n)
+	for k := 0; k < n; k++ {
+		u := k
+		if lay == 3 {
+			u = n - 1 - k
+		}
+		lo := len(st.all)
+		st.all = append(st.all, adj[u]...)
+		st.reg[u] = [2]int{lo, len(st.all)}
+	}
+	st.used = len(st.all)
+	for k := 0; k < tail; k++ {
+		st.all = append(st.all, -1000-k)
+	}
+	for u, r := range st.reg {
+		st.lists[u] = st.all[r[0]:r[1]]
+	}
+	st.pristine = append([]int(nil), st.all...)
+	return st
+}
+
+// spareOver reports whether the capacity behind node u's list holds at least
+// need elements, the first of which belongs to another node's list.
+func (st *c18Store) spareOver(u, need int) bool {
+	if st.lay == 0 {
+		return false
+	}
+	hi := st.reg[u][1]
+	return hi < st.used && len(st.all)-hi >= need
+}
+
+// verify compares what the library sees with adj (the pristine lists) and
+// restores it. kind: "" untouched; "mutated" (separate lists changed; not
+// judged here); "reordered" (lists permuted in place; not judged);
+// "spare-written" (only the canary tail changed; not judged); "violation":
+// with all lists in one array, the multiset of some node's list has changed:
+// the caller's graph was overwritten.
+func (st *c18Store) verify(adj [][]int) (kind, msg string) {
+	if st.lay == 0 {
+		for i, l := range adj {
+			if !c18EqInts(st.lists[i], l) {
+				kind = "mutated"
+				st.lists[i] = append(make([]int, 0, len(l)), l...)
+			}
+		}
+		return kind, ""
+	}
+	if c18EqInts(st.all, st.pristine) {
+		return "", ""
+	}
+	for u, r := range st.reg {
+		cur := st.all[r[0]:r[1]]
+		if c18EqInts(cur, adj[u]) {
+			continue
+		}
+		if ref.GSameMultiset(cur, adj[u]) {
+			if kind == "" {
+				kind = "reordered"
+			}
+			continue
+		}
+		if kind != "violation" {
+			kind = "violation"
+			msg = fmt.Sprintf("the lists returned by Out are sub-slices of one array (node %d at [%d:%d] of %d elements); afterwards the list of node %d reads %s, it was %s: the caller's graph was overwritten", u, r[0], r[1], len(st.all), u, c18Short(append([]int(nil), cur...), adj[u]), c18Short(adj[u], cur))
+		}
+	}
+	if kind == "" {
+		kind = "spare-written"
+	}
+	copy(st.all, st.pristine)
+	return kind, msg
+}
 
 // c18J judges one graph case.
 type c18J struct {
@@ -137,13 +297,16 @@ type c18J struct {
 	c      *c18Case
 	adj    [][]int // pristine; every reference is computed from it
 	work   [][]int // what the library sees
+	st     *c18Store
+	st2    *c18Store // the partner graph of the Equal call in flight
+	adj2   [][]int
 	small  bool
 	n, m   int
 	budget int64
 	g      c18G
-	wg     c18WG
 	labels []int // reference SCC labels (lazy)
 	nbad   int
+	probe  bool // see call
 }
 
 func c18CloneAdj(a [][]int) [][]int {
@@ -160,7 +323,12 @@ func c18NewJ(w *mon.W, c *c18Case, adj [][]int, small bool) *c18J {
 		j.m += len(l)
 	}
 	if small {
-		j.work = c18CloneAdj(adj)
+		lay := c.Lay
+		if lay < 0 || lay > 3 {
+			lay = 0
+		}
+		j.st = c18NewStore(adj, lay)
+		j.work = j.st.lists
 	} else {
 		j.work = adj
 	}
@@ -170,31 +338,42 @@ func c18NewJ(w *mon.W, c *c18Case, adj [][]int, small bool) *c18J {
 	return j
 }
 
-// G returns the counting graph with a fresh budget. If the previous call
-// changed the caller's adjacency lists that is noted (it is not part of this
-// property) and the lists are restored so that later oracles stay valid.
-func (j *c18J) G() *c18G {
-	if j.small {
-		for i, l := range j.adj {
-			wl := j.work[i]
-			same := len(wl) == len(l)
-			for k := 0; same && k < len(l); k++ {
-				same = wl[k] == l[k]
-			}
-			if !same {
-				j.w.Note("input-adjacency-mutated-by-library")
-				j.work[i] = append(make([]int, 0, len(l)), l...)
-			}
-		}
-	}
-	j.g = c18G{adj: j.work, budget: j.budget}
-	return &j.g
+// G returns the graph, in the case's representation, with a fresh budget.
+func (j *c18J) G() graph.Graph {
+	j.g = c18G{budget: j.budget}
+	return c18Wrap(j.rep(), j.work, &j.g)
 }
 
-func (j *c18J) WG(wt [][]float64) *c18WG {
-	g := j.G()
-	j.wg = c18WG{c18G: *g, wt: wt}
-	return &j.wg
+func (j *c18J) WG(wt [][]float64) graph.Graph {
+	j.g = c18G{budget: j.budget}
+	return c18WrapW(j.rep(), j.work, wt, &j.g)
+}
+
+// checkStores runs after every call into the library. A change of the
+// caller's separate adjacency lists, or a reordering in place, is noted (it
+// is not part of this property) and undone so that later oracles stay valid;
+// with all lists in one array a list whose content has changed is a
+// violation: the answers of this and of every later call are about another
+// graph.
+func (j *c18J) checkStores(op string) {
+	for k, st := range [2]*c18Store{j.st, j.st2} {
+		if st == nil {
+			continue
+		}
+		adj, which := j.adj, "g"
+		if k == 1 {
+			adj, which = j.adj2, fmt.Sprintf("the other graph %v", j.adj2)
+		}
+		switch kind, msg := st.verify(adj); kind {
+		case "":
+		case "violation":
+			j.bad("adjacency-alias", fmt.Sprintf("%s on %s: %s", op, which, msg))
+		case "mutated":
+			j.w.Note("input-adjacency-mutated-by-library")
+		default:
+			j.w.Note("packed-adjacency-" + kind)
+		}
+	}
 }
 
 func (j *c18J) desc() string {
@@ -239,11 +418,42 @@ func c18Printable(s string) string {
 // call runs one library call under panic capture.
 func (j *c18J) call(op string, fn func()) bool {
 	j.w.Eval(op)
+	if j.c.Rep == 1 {
+		// graph.IntGraph cannot count the calls made into it. The same call
+		// is first made on the counting pointer representation (not judged
+		// otherwise); only a call that stays within its step budget there is
+		// made on the IntGraph, so that a call that never returns is a
+		// violation here and not a hang of the monitor. fn must be repeatable.
+		j.probe = true
+		p, v := mon.Call(fn)
+		j.probe = false
+		if b, ok := v.(c18Budget); p && ok {
+			j.checkStores(op)
+			j.bad("step-budget", fmt.Sprintf("%s made %d calls into the graph or the callbacks (budget %d for n=%d, m=%d): no bounded progress", op, b.calls, b.limit, j.n, j.m))
+			return false
+		}
+		if j.st != nil {
+			j.st.verify(j.adj) // undo whatever the probe did; the real call is judged
+		}
+		if j.st2 != nil {
+			j.st2.verify(j.adj2)
+		}
+	}
 	return j.guard(op, fn)
 }
 
+// rep is the representation for the call being made.
+func (j *c18J) rep() int {
+	if j.probe {
+		return 0
+	}
+	return j.c.Rep
+}
+
 func (j *c18J) guard(op string, fn func()) bool {
-	if p, v := mon.Call(fn); p {
+	p, v := mon.Call(fn)
+	j.checkStores(op)
+	if p {
 		if b, ok := v.(c18Budget); ok {
 			j.bad("step-budget", fmt.Sprintf("%s made %d calls into the graph or the callbacks (budget %d for n=%d, m=%d): no bounded progress", op, b.calls, b.limit, j.n, j.m))
 		} else {
@@ -310,6 +520,12 @@ func (j *c18J) run() {
 	}
 	w.HitIf(par, "parallel-edges")
 	w.HitIf(loops, "self-loops")
+	w.HitIf(c.Rep == 1, "graph-rep-intgraph")
+	w.HitIf(c.Rep == 2, "graph-rep-by-value-struct")
+	if j.st != nil && j.st.lay != 0 && j.m > 0 {
+		w.Hit("graph-layout-packed")
+		w.HitIf(j.st.lay >= 2, "graph-layout-packed-spare-tail")
+	}
 	if c.Parts&c18pOrders != 0 {
 		for _, root := range c.Roots {
 			j.orders(root)
@@ -326,7 +542,11 @@ func (j *c18J) run() {
 	if c.Parts&c18pSimp != 0 {
 		j.simplify(nil)
 		if c.Wt != nil {
-			j.simplify(c.Wt)
+			wt := make([][]float64, len(c.Wt))
+			for u := range wt {
+				wt[u] = mon.Un(c.Wt[u])
+			}
+			j.simplify(wt)
 		}
 	}
 	if c.Parts&c18pBi != 0 {
@@ -343,7 +563,7 @@ func (j *c18J) run() {
 	}
 	if c.noDistinct {
 	} else if j.small {
-		h := mon.NewHasher().I(j.n).I(c.Parts)
+		h := mon.NewHasher().I(j.n).I(c.Parts).I(c.Rep).I(c.Lay)
 		for _, l := range adj {
 			h = h.Is(l)
 		}
@@ -356,10 +576,10 @@ func (j *c18J) run() {
 		}
 		w.Distinct(h.Sum())
 	} else {
-		w.Distinct(mon.NewHasher().S(c.Shape).I(c.N).U(c.Param).Is(c.Roots).Sum())
+		w.Distinct(mon.NewHasher().S(c.Shape).I(c.N).U(c.Param).Is(c.Roots).I(c.Rep).Sum())
 	}
 	if w.WantSample() && j.n >= 3 {
-		s := map[string]any{"kind": c.Kind, "n": j.n, "edges": j.m, "roots": c.Roots, "parts": c.Parts}
+		s := map[string]any{"kind": c.Kind, "n": j.n, "edges": j.m, "roots": c.Roots, "parts": c.Parts, "rep": c.Rep, "lay": c.Lay}
 		if j.small && j.n <= 8 {
 			s["adj"] = adj
 		} else if !j.small {
@@ -401,7 +621,8 @@ func (j *c18J) orders(root int) {
 	if okPost {
 		in := append([]int(nil), gotPost...)
 		var rev []int
-		if j.call("Reverse", func() { rev = graphalg.Reverse(in) }) {
+		j.w.Eval("Reverse")
+		if j.guard("Reverse", func() { rev = graphalg.Reverse(in) }) {
 			ok := len(rev) == len(gotPost)
 			for i := 0; ok && i < len(rev); i++ {
 				ok = rev[i] == gotPost[len(gotPost)-1-i]
@@ -423,13 +644,13 @@ func (j *c18J) orders(root int) {
 		}
 	}
 	e := graphalg.Euler{Enter: rec(0), Exit: rec(1)}
-	if j.call("Euler.Visit", func() { e.Visit(j.G(), root) }) && !c18EqInts(gotEv, ev) {
+	if j.call("Euler.Visit", func() { gotEv = gotEv[:0]; e.Visit(j.G(), root) }) && !c18EqInts(gotEv, ev) {
 		j.bad("euler", fmt.Sprintf("Euler.Visit(root=%d) events (node<<1|exit)=%s, the tour of the pre-order tree is %s", root, c18Short(gotEv, ev), c18Short(ev, gotEv)))
 	}
 	if j.c.Parts&c18pEulerNil != 0 {
 		gotEv = gotEv[:0]
 		e = graphalg.Euler{Enter: rec(0)}
-		if j.call("Euler.Visit(Exit=nil)", func() { e.Visit(j.G(), root) }) {
+		if j.call("Euler.Visit(Exit=nil)", func() { gotEv = gotEv[:0]; e.Visit(j.G(), root) }) {
 			ok := len(gotEv) == len(pre)
 			for i := 0; ok && i < len(pre); i++ {
 				ok = gotEv[i] == pre[i]<<1
@@ -440,7 +661,7 @@ func (j *c18J) orders(root int) {
 		}
 		gotEv = gotEv[:0]
 		e = graphalg.Euler{Exit: rec(1)}
-		if j.call("Euler.Visit(Enter=nil)", func() { e.Visit(j.G(), root) }) {
+		if j.call("Euler.Visit(Enter=nil)", func() { gotEv = gotEv[:0]; e.Visit(j.G(), root) }) {
 			ok := len(gotEv) == len(post)
 			for i := 0; ok && i < len(post); i++ {
 				ok = gotEv[i] == post[i]<<1|1
@@ -640,16 +861,14 @@ func (j *c18J) scc(flags graphalg.SCCFlags) {
 func (j *c18J) simplify(wt [][]float64) {
 	w := j.w
 	op := "SimplifyMulti(unweighted)"
-	var gi graph.Graph
+	gi := j.G
 	if wt != nil {
 		op = "SimplifyMulti(weighted)"
-		gi = j.WG(wt)
+		gi = func() graph.Graph { return j.WG(wt) }
 		w.Hit("simplify-weighted")
-	} else {
-		gi = j.G()
 	}
 	var s graph.Weighted
-	if !j.call(op, func() { s = graphalg.SimplifyMulti(gi) }) {
+	if !j.call(op, func() { s = graphalg.SimplifyMulti(gi()) }) {
 		return
 	}
 	if s == nil {
@@ -717,12 +936,25 @@ func (j *c18J) simplify(wt [][]float64) {
 				if wt == nil || cnt == 1 || dyadic {
 					// an edge without parallel partner keeps its weight; counts and
 					// small dyadic weights sum exactly in every order
-					if !w.Err("simplify-weight", math.Abs(got-sum), 0) {
+					diff := math.Abs(got - sum)
+					if got == sum || (math.IsNaN(got) && math.IsNaN(sum)) {
+						diff = 0 // also for an infinite weight
+					}
+					if !w.Err("simplify-weight", diff, 0) {
 						if cnt == 1 {
 							problem = fmt.Sprintf("node %d: the edge to %d has weight %v; it has no parallel partner and its weight in the graph is %v", u, t, got, sum)
 						} else {
 							problem = fmt.Sprintf("node %d: merged edge to %d has weight %v, the %d parallel edges sum to %v exactly (weights %v)", u, t, got, cnt, sum, part)
 						}
+						return
+					}
+					continue
+				}
+				if !(sumAbs <= math.MaxFloat64/4) {
+					// infinite weights, or finite ones whose partial sums can leave
+					// the float64 range
+					if bad := c18JudgeExtremeSum(w, part, got); bad != "" {
+						problem = fmt.Sprintf("node %d: merged edge to %d has weight %v, the %d parallel edges have weights %v: %s", u, t, got, cnt, part, bad)
 						return
 					}
 					continue
@@ -743,6 +975,71 @@ func (j *c18J) simplify(wt [][]float64) {
 	}) && problem != "" {
 		j.bad("simplify", op+": "+problem)
 	}
+}
+
+// c18JudgeExtremeSum judges the merged weight got of parallel edges whose
+// weights part contain infinities or are so large that partial sums can
+// overflow. The sum of float64 values is taken as IEEE 754 defines it, but no
+// order or scheme of summation is assumed:
+//   - infinities of one sign (finite part far from overflow): that infinity;
+//   - both signs: NaN (+Inf + -Inf has no value);
+//   - finite weights: a finite result must lie within the usual rounding
+//     allowance of the exact sum; +Inf (-Inf) is accepted exactly when the
+//     positive (negative) weights alone can reach the overflow threshold, i.e.
+//     when some order of addition overflows or the exact sum itself rounds to
+//     infinity; NaN only when both can (a tree-shaped summation may then add
+//     +Inf and -Inf).
+//
+// A case outside these rules (NaN weights; infinities together with finite
+// weights that can overflow on their own) is counted ambiguous and not judged.
+func c18JudgeExtremeSum(w *mon.W, part []float64, got float64) string {
+	in := ref.GSumAnalyze(part)
+	if in.NaNs > 0 || ((in.PosInf > 0 || in.NegInf > 0) && (in.PosCan || in.NegCan)) {
+		w.Ambiguous()
+		return ""
+	}
+	w.Eval("simplified.OutWeight(extreme)")
+	switch {
+	case in.PosInf > 0 && in.NegInf > 0:
+		w.Hit("weighted-parallel-both-infinities")
+		if !math.IsNaN(got) {
+			return "+Inf and -Inf have no sum, NaN expected"
+		}
+	case in.PosInf > 0:
+		w.Hit("weighted-parallel-infinite")
+		if !math.IsInf(got, 1) {
+			return "the sum is +Inf"
+		}
+	case in.NegInf > 0:
+		w.Hit("weighted-parallel-infinite")
+		if !math.IsInf(got, -1) {
+			return "the sum is -Inf"
+		}
+	default:
+		w.HitIf(in.Overflows != 0, "weighted-parallel-sum-overflows")
+		w.HitIf(in.Overflows == 0 && (in.PosCan || in.NegCan), "weighted-parallel-order-dependent-overflow")
+		tol := ref.GScale(in.SumAbs, 4*float64(len(part)-1)*0x1p-53)
+		ex := ref.GFloat(in.Exact)
+		switch {
+		case math.IsNaN(got):
+			if !(in.PosCan && in.NegCan) {
+				return fmt.Sprintf("the exact sum is %v; no order of addition produces both +Inf and -Inf, NaN is not a sum of these weights", ex)
+			}
+		case math.IsInf(got, 1):
+			if !in.PosCan {
+				return fmt.Sprintf("the exact sum is %v and the positive weights cannot overflow in any order", ex)
+			}
+		case math.IsInf(got, -1):
+			if !in.NegCan {
+				return fmt.Sprintf("the exact sum is %v and the negative weights cannot overflow in any order", ex)
+			}
+		default:
+			if !ref.GWithin(got, in.Exact, tol) {
+				return fmt.Sprintf("the exact sum is %v (allowance %.3g)", ex, ref.GFloat(tol))
+			}
+		}
+	}
+	return ""
 }
 
 // bi: MakeBiGraph's In is the transpose of Out.
@@ -825,15 +1122,43 @@ func (j *c18J) equal() {
 			w.Hit("equal-different-node-count")
 		}
 		w.HitIf(want, "equal-true")
-		g2 := &c18G{adj: c18CloneAdj(adj2), budget: 16*int64(len(adj2)+j.m+4) + 64 + j.budget}
+		lay := 0
+		if j.st != nil {
+			lay = j.st.lay
+		}
+		st2 := c18NewStore(adj2, lay)
+		if lay != 0 && len(adj2) == len(j.adj) {
+			// a scratch buffer grown out of one graph's list would run over the
+			// lists stored behind it
+			over := false
+			for i := range adj2 {
+				if len(adj2[i]) == len(j.adj[i]) && !c18EqInts(adj2[i], j.adj[i]) {
+					over = over || j.st.spareOver(i, len(adj2[i])) || st2.spareOver(i, len(adj2[i]))
+				}
+			}
+			w.HitIf(over, "equal-packed-permuted-list-before-other-lists")
+		}
+		j.st2, j.adj2 = st2, adj2
+		ctr2 := &c18G{}
+		b2 := 16*int64(len(adj2)+j.m+4) + 64 + j.budget
+		mk2 := func() graph.Graph {
+			*ctr2 = c18G{budget: b2}
+			return c18Wrap(j.rep(), st2.lists, ctr2)
+		}
 		var got, got2 bool
-		if j.call("Equal", func() { got = graph.Equal(j.G(), g2) }) && got != want {
+		if j.call("Equal", func() { got = graph.Equal(j.G(), mk2()) }) && got != want {
 			j.bad("equal", fmt.Sprintf("Equal(g, %v)=%v, comparing adjacency lists as multisets gives %v", adj2, got, want))
 		}
-		g2.calls = 0
-		if j.call("Equal", func() { got2 = graph.Equal(g2, j.G()) }) && got2 != want {
+		if j.call("Equal", func() { got2 = graph.Equal(mk2(), j.G()) }) && got2 != want {
 			j.bad("equal", fmt.Sprintf("Equal(%v, g)=%v, comparing adjacency lists as multisets gives %v", adj2, got2, want))
 		}
+		j.st2, j.adj2 = nil, nil
+	}
+	// the very same graph value as both arguments
+	w.Hit("equal-same-value-twice")
+	var same bool
+	if j.call("Equal(g,g)", func() { g := j.G(); same = graph.Equal(g, g) }) && !same {
+		j.bad("equal", "Equal(g, g)=false for the same graph value as both arguments")
 	}
 }
 
@@ -866,9 +1191,10 @@ func (j *c18J) sub() {
 		asc := sort.IntsAreSorted(s.KeepNodes)
 		w.HitIf(!asc, "subgraph-keep-permuted-nodes")
 		w.HitIf(len(s.KeepNodes) == 0, "subgraph-keep-nothing")
-		nodes := append([]int(nil), s.KeepNodes...)
 		var sg graph.Subgraph
-		if j.call("SubgraphKeep", func() { sg = graph.SubgraphKeep(j.G(), nodes, edges) }) {
+		if j.call("SubgraphKeep", func() {
+			sg = graph.SubgraphKeep(j.G(), append([]int(nil), s.KeepNodes...), append([]graph.Edge(nil), edges...))
+		}) {
 			j.subVerify(sg, "SubgraphKeep", s.KeepNodes, kept, len(s.KeepNodes), want)
 		}
 	}
@@ -928,9 +1254,10 @@ func (j *c18J) sub() {
 			w.HitIf(len(rm) < len(s.RmEdges), "subgraph-remove-repeated-edge")
 		}
 		w.HitIf(len(s.RmNodes) > 0 && nk > 0 && !kept[0], "subgraph-remove-node-id-shift")
-		nodes := append([]int(nil), s.RmNodes...)
 		var sg graph.Subgraph
-		if j.call("SubgraphRemove", func() { sg = graph.SubgraphRemove(j.G(), nodes, edges) }) {
+		if j.call("SubgraphRemove", func() {
+			sg = graph.SubgraphRemove(j.G(), append([]int(nil), s.RmNodes...), append([]graph.Edge(nil), edges...))
+		}) {
 			j.subVerify(sg, "SubgraphRemove", nil, kept, nk, want)
 		}
 	}
@@ -1255,25 +1582,15 @@ func c18NodeID(v ref.DotVal) (int, bool) {
 
 func c18Hostile(s []byte) bool { return strings.ContainsAny(string(s), "\"\\{}<>|\n") }
 
-func (j *c18J) dot() {
-	w := j.w
+// dotSpec builds the Dot value of the case.
+func (j *c18J) dotSpec() (spec graphout.Dot, sh *c18SharedAttrs) {
 	d := j.c.Dot
-	n := j.n
-	spec := graphout.Dot{Name: string(d.Name)}
-	hostile := c18Hostile(d.Name)
-	litbn := strings.Contains(string(d.Name), `\n`)
+	spec = graphout.Dot{Name: string(d.Name)}
 	if d.Labels != nil {
 		spec.Label = func(i int) string { return string(d.Labels[i]) }
-		for _, l := range d.Labels {
-			hostile = hostile || c18Hostile(l)
-			litbn = litbn || strings.Contains(string(l), `\n`)
-		}
 	}
-	var sh *c18SharedAttrs
 	if d.Shared != 0 && (d.NodeAttrs != nil || d.EdgeAttrs != nil) {
 		sh = c18BuildShared(d, j.adj)
-		w.Hit("dot-shared-attr-array")
-		w.HitIf(sh.labelBeforeRegion, "dot-shared-label-append-before-next-region")
 	}
 	if d.NodeAttrs != nil {
 		if sh != nil {
@@ -1288,6 +1605,46 @@ func (j *c18J) dot() {
 		} else {
 			spec.EdgeAttrs = func(i, e int) []graphout.DotAttr { return c18ConvAttrs(d.EdgeAttrs[i][e]) }
 		}
+	}
+	return spec, sh
+}
+
+// c18RecWriter records what is written, chunk by chunk; with limit >= 0 it
+// accepts limit bytes in total and fails every write that goes beyond.
+type c18RecWriter struct {
+	buf    []byte
+	chunks int
+	limit  int
+	failed int // failing Write calls
+}
+
+var errC18Write = errors.New("c18: writer is full")
+
+func (r *c18RecWriter) Write(p []byte) (int, error) {
+	r.chunks++
+	if r.limit >= 0 && len(r.buf)+len(p) > r.limit {
+		k := r.limit - len(r.buf)
+		r.buf = append(r.buf, p[:k]...)
+		r.failed++
+		return k, errC18Write
+	}
+	r.buf = append(r.buf, p...)
+	return len(p), nil
+}
+
+func (j *c18J) dot() {
+	w := j.w
+	d := j.c.Dot
+	hostile := c18Hostile(d.Name)
+	litbn := strings.Contains(string(d.Name), `\n`)
+	for _, l := range d.Labels {
+		hostile = hostile || c18Hostile(l)
+		litbn = litbn || strings.Contains(string(l), `\n`)
+	}
+	spec, sh := j.dotSpec()
+	if sh != nil {
+		w.Hit("dot-shared-attr-array")
+		w.HitIf(sh.labelBeforeRegion, "dot-shared-label-append-before-next-region")
 	}
 	// strings a printer could be tempted to write without quotes
 	plain, reserved := c18PlainWord(d.Name)
@@ -1323,26 +1680,84 @@ func (j *c18J) dot() {
 	if !j.call("Dot.Sprint", func() { text = spec.Sprint(j.G()) }) {
 		return
 	}
+	if !j.dotCheck("Dot.Sprint", text, sh) {
+		return
+	}
+	// the same through Fprint into a caller's writer: every chunk counts
+	rec := &c18RecWriter{limit: -1}
+	var err error
+	if j.call("Dot.Fprint", func() { *rec = c18RecWriter{limit: -1}; err = spec.Fprint(rec, j.G()) }) {
+		if err != nil {
+			j.bad("dot-fprint", fmt.Sprintf("Dot.Fprint into a writer that accepts everything returned the error %v", err))
+		} else if got := string(rec.buf); got == text {
+			if sh != nil {
+				j.dotShared("Dot.Fprint", got, sh)
+			}
+		} else {
+			w.Note("dot-fprint-text-differs-from-sprint")
+			j.dotCheck("Dot.Fprint", got, sh)
+		}
+	}
+	if d.Fail != 0 {
+		// a writer that fails after k bytes: the error must come back
+		k := (d.Fail - 1) % (len(text) + 1)
+		fw := &c18RecWriter{limit: k}
+		w.Hit("dot-fprint-failing-writer")
+		w.HitIf(k == 0, "dot-fprint-writer-fails-at-once")
+		if j.call("Dot.Fprint(failing writer)", func() { *fw = c18RecWriter{limit: k}; err = spec.Fprint(fw, j.G()) }) {
+			switch {
+			case fw.failed > 0 && err == nil:
+				j.bad("dot-fprint-error-dropped", fmt.Sprintf("Dot.Fprint into a writer that accepted %d bytes and then failed %d Write calls returned a nil error: the text is incomplete (%d of %d bytes) and the caller is not told", k, fw.failed, len(fw.buf), len(text)))
+			case fw.failed == 0 && err != nil:
+				j.bad("dot-fprint", fmt.Sprintf("Dot.Fprint returned the error %v, the writer did not fail (%d bytes, limit %d)", err, len(fw.buf), k))
+			case fw.failed == 0 && string(fw.buf) != text && len(text) <= k:
+				// it wrote no more than the limit without an error: must be a whole text
+				j.dotCheck("Dot.Fprint(writer with a limit not reached)", string(fw.buf), sh)
+			case err != nil && !errors.Is(err, errC18Write):
+				w.Note("dot-fprint-returns-another-error-than-the-writers")
+			}
+		}
+	}
+}
+
+// dotShared: the caller's attribute storage is input: the attribute lists of
+// the other nodes and edges must still be there after the call.
+func (j *c18J) dotShared(op, text string, sh *c18SharedAttrs) bool {
+	if kind, msg := sh.verify(); kind == "violation" {
+		t := text
+		if len(t) > 600 {
+			t = t[:600] + "..."
+		}
+		j.bad("dot-attr-alias", fmt.Sprintf("%s: %s; output %q", op, msg, t))
+		return false
+	} else if kind != "" {
+		j.w.Note("dot-shared-array-" + kind)
+	}
+	return true
+}
+
+// dotCheck reads a Dot text back and compares it with the graph and the
+// strings of the case. It reports whether the text was accepted.
+func (j *c18J) dotCheck(op, text string, sh *c18SharedAttrs) bool {
+	w := j.w
+	d := j.c.Dot
+	n := j.n
+	okAll := true
 	fail := func(kind, msg string) {
 		t := text
 		if len(t) > 600 {
 			t = t[:600] + "..."
 		}
-		j.bad(kind, fmt.Sprintf("Dot.Sprint: %s; output %q", msg, t))
+		okAll = false
+		j.bad(kind, fmt.Sprintf("%s: %s; output %q", op, msg, t))
 	}
-	if sh != nil {
-		// the caller's attribute storage is input: the attribute lists of the
-		// other nodes and edges must still be there after the call
-		if kind, msg := sh.verify(); kind == "violation" {
-			fail("dot-attr-alias", msg)
-		} else if kind != "" {
-			w.Note("dot-shared-array-" + kind)
-		}
+	if sh != nil && !j.dotShared(op, text, sh) {
+		okAll = false
 	}
 	f, err := ref.DotParse(text)
 	if err != nil {
 		fail("dot-syntax", "output cannot be read back: "+err.Error())
-		return
+		return false
 	}
 	if f.HasName {
 		if !c18StrMatch(f.Name, string(d.Name)) {
@@ -1358,7 +1773,7 @@ func (j *c18J) dot() {
 		u, ok := c18NodeID(st.From)
 		if !ok || u >= n {
 			fail("dot-nodes", fmt.Sprintf("statement names %q, which is no node of the graph (n=%d)", st.From.Text, n))
-			return
+			return false
 		}
 		if st.IsEdge {
 			edgesFrom[u] = append(edgesFrom[u], st)
@@ -1367,7 +1782,7 @@ func (j *c18J) dot() {
 		nodeSeen[u]++
 		if nodeSeen[u] > 1 {
 			fail("dot-nodes", fmt.Sprintf("node %d is defined %d times", u, nodeSeen[u]))
-			return
+			return false
 		}
 		var want []c18Attr
 		haveLabel := false
@@ -1390,18 +1805,18 @@ func (j *c18J) dot() {
 		}
 		if !c18AttrsMatch(st.Attrs, want) {
 			fail("dot-string", fmt.Sprintf("node %d: attributes read back as %+v, expected %s", u, st.Attrs, c18AttrStr(want)))
-			return
+			return false
 		}
 	}
 	for u := 0; u < n; u++ {
 		if nodeSeen[u] != 1 {
 			fail("dot-nodes", fmt.Sprintf("node %d is defined %d times", u, nodeSeen[u]))
-			return
+			return false
 		}
 		got := edgesFrom[u]
 		if len(got) != len(j.adj[u]) {
 			fail("dot-edges", fmt.Sprintf("node %d has %d out-edges, the text has %d", u, len(j.adj[u]), len(got)))
-			return
+			return false
 		}
 		used := make([]bool, len(got))
 		for e, t := range j.adj[u] {
@@ -1422,9 +1837,73 @@ func (j *c18J) dot() {
 			}
 			if !found {
 				fail("dot-edges", fmt.Sprintf("edge %d of node %d (to %d, attributes %s) is not in the text exactly once", e, u, t, c18AttrStr(want)))
-				return
+				return false
 			}
 		}
+	}
+	return okAll
+}
+
+// c18JudgePrint: Dot.Print writes the same kind of text to os.Stdout. File
+// descriptor 1 is pointed at a temporary file for the duration of the one
+// call (the class runs serially, nothing else writes meanwhile), so the text
+// is seen whichever way the library reaches standard output.
+func c18JudgePrint(w *mon.W, c *c18Case) {
+	if c.Dot == nil {
+		return
+	}
+	j := c18NewJ(w, c, c.Adj, true)
+	spec, sh := j.dotSpec()
+	tmp, err := os.CreateTemp("", "c18-print-*")
+	if err != nil {
+		w.Note("dot-print-no-temp-file")
+		return
+	}
+	defer os.Remove(tmp.Name())
+	defer tmp.Close()
+	saved, err := syscall.Dup(1)
+	if err != nil {
+		w.Note("dot-print-cannot-redirect")
+		return
+	}
+	restored := false
+	restore := func() {
+		if !restored {
+			syscall.Dup3(saved, 1, 0)
+			syscall.Close(saved)
+			restored = true
+		}
+	}
+	defer restore()
+	if err := syscall.Dup3(int(tmp.Fd()), 1, 0); err != nil {
+		w.Note("dot-print-cannot-redirect")
+		return
+	}
+	var perr error
+	ok := j.call("Dot.Print", func() { perr = spec.Print(j.G()) })
+	restore()
+	w.Hit("dot-print-stdout")
+	h := mon.NewHasher().S("print").I(j.n).I(c.Rep).I(c.Lay).S(string(c.Dot.Name))
+	for _, l := range c.Adj {
+		h = h.Is(l)
+	}
+	w.Distinct(h.Sum())
+	if !ok {
+		return
+	}
+	data, err := os.ReadFile(tmp.Name())
+	if err != nil {
+		w.Note("dot-print-cannot-read-back")
+		return
+	}
+	w.HitIf(len(data) > 4096, "dot-print-text>4096-bytes")
+	if perr != nil {
+		j.bad("dot-print", fmt.Sprintf("Dot.Print returned the error %v writing to a regular file as standard output", perr))
+		return
+	}
+	j.dotCheck("Dot.Print (standard output redirected to a file)", string(data), sh)
+	if w.WantSample() {
+		w.Sample(map[string]any{"kind": "print", "n": j.n, "edges": j.m, "bytes_on_stdout": len(data)})
 	}
 }
 
@@ -2039,14 +2518,18 @@ func c18EqPartners(rng *mon.Rand, adj [][]int) [][][]int {
 // c18RandWeights draws edge weights: small dyadic numbers (every sum is
 // exact in any order), or numbers that need all 53 bits and span many
 // magnitudes (sums are judged with a rounding allowance).
-func c18RandWeights(rng *mon.Rand, adj [][]int) [][]float64 {
-	wt := make([][]float64, len(adj))
-	mode := rng.Intn(5) // 0,1 dyadic; 2 decimal fractions; 3 wide magnitudes; 4 mixed
+func c18RandWeights(rng *mon.Rand, adj [][]int) [][]mon.F {
+	wt := make([][]mon.F, len(adj))
+	// 0,1 dyadic; 2 decimal fractions; 3 wide magnitudes; 4 mixed; 5 some
+	// weights infinite (of one sign, or of both); 6 finite weights up to
+	// MaxFloat64, whose sums overflow
+	mode := rng.Intn(7)
+	infSign := rng.PickI(1, 1, -1, 0) // mode 5: sign of the infinities, 0 = both
 	for u, l := range adj {
-		wt[u] = make([]float64, len(l))
+		wt[u] = make([]mon.F, len(l))
 		for k := range l {
 			m := mode
-			if m == 4 {
+			if m == 4 || m == 5 {
 				m = 1 + rng.Intn(3)
 			}
 			var x float64
@@ -2055,13 +2538,25 @@ func c18RandWeights(rng *mon.Rand, adj [][]int) [][]float64 {
 				x = float64(rng.Intn(129)) / 8 // dyadic, 0..16
 			case 2:
 				x = rng.Pick(0.1, 0.2, 0.3, 1.0/3, 2.0/3, 0.7, 1e-3, math.Pi, 1<<24+1, 1<<53-1, 1e9+0.5, float64(rng.Intn(1000))/10, rng.Float64())
+			case 6:
+				x = rng.Pick(math.MaxFloat64, math.MaxFloat64, 1e308, 0x1p1023, math.MaxFloat64/2, 0x1p1022, 6e307, 1e307, 1e300, 1e292, 1, 0.1, math.Min(rng.LogUniform(1e290, 1.7e308), math.MaxFloat64))
+				if rng.Intn(4) == 0 {
+					x = -x
+				}
 			default:
 				x = rng.Pick(1e-50, 1e50, 2.5e-40, 3e38, 7e-46, 1e-30, 1e30, 1, 0.1, rng.LogUniform(1e-50, 1e50), rng.LogUniform(1e-50, 1e50))
 			}
 			if rng.Intn(6) == 0 {
 				x = -x
 			}
-			wt[u][k] = x
+			if mode == 5 && rng.Intn(3) == 0 {
+				sg := infSign
+				if sg == 0 {
+					sg = rng.PickI(1, -1)
+				}
+				x = math.Inf(sg)
+			}
+			wt[u][k] = mon.F(x)
 		}
 	}
 	return wt
@@ -2091,7 +2586,13 @@ func c18FillExtras(rng *mon.Rand, c *c18Case) {
 	}
 	if c.Parts&c18pDot != 0 {
 		c.Dot = c18RandDot(rng, c.Adj)
+		if rng.Bool() {
+			c.Dot.Fail = 1 + rng.Intn(1<<20)
+		}
 	}
+	// how the library sees the graph: Go type and storage of the lists
+	c.Rep = rng.PickI(0, 0, 0, 2, 2, 1)
+	c.Lay = rng.PickI(0, 0, 1, 2, 2, 3)
 }
 
 // c18RandGraph draws a multigraph of at most 60 nodes.
@@ -2328,12 +2829,16 @@ func c18GenMarks(rng *mon.Rand, idx int) [][2]int {
 }
 
 func c18Run(r *mon.Run) {
-	r.Rule("graphs: every digraph on <=4 nodes (adjacency matrix, self-loops included) and every multigraph on <=3 nodes with out-degree <=3 in every adjacency order, each with every root and all oracles; digraphs on 5 nodes (quick: fixed 2^17 subsample, thorough: all 2^25) with orders/Euler/SCC/SimplifyMulti/MakeBiGraph; all ordered pairs of multigraphs on <=2 nodes for Equal; seeded random multigraphs <=60 nodes; structured graphs of 1000..100000 nodes; NodeMarks histories against a set model; DotString on all strings of <=3 bytes over a 14-byte hostile alphabet plus seeded hostile strings. Non-trivial: a case hitting any class; distinct by hash of the graph, roots and selections (or of the history/string).")
+	r.Rule("graphs: every digraph on <=4 nodes (adjacency matrix, self-loops included) and every multigraph on <=3 nodes with out-degree <=3 in every adjacency order, each with every root and all oracles; digraphs on 5 nodes (quick: fixed 2^17 subsample, thorough: all 2^25) with orders/Euler/SCC/SimplifyMulti/MakeBiGraph; all ordered pairs of multigraphs on <=2 nodes for Equal; seeded random multigraphs <=60 nodes; structured graphs of 1000..100000 nodes; one Dot.Print call on a seeded random multigraph with standard output redirected; NodeMarks histories against a set model; DotString on all strings of <=3 bytes over a 14-byte hostile alphabet plus seeded hostile strings. Non-trivial: a case hitting any class; distinct by hash of the graph, roots and selections (or of the history/string).")
 	r.Assume("reference: iterative definitional DFS, BFS reachability, mutual-reachability SCC (<=64 nodes) and iterative Kosaraju (large), cross-checked at start-up; Dot text is read back by a small tokenizer/parser with backslash unescaping",
 		"Dot node ids are assumed to be written n<i>; attribute and edge order in the text is free",
 		"in-domain inputs only: node ids >= 0 for Mark/Unmark, SubgraphKeep edges between kept nodes without duplicates (SubgraphRemove lists may repeat entries: removal is by set)",
 		"strings (graph name, Label results, string attribute values) must appear as quoted strings; int/uint/float64/DotLiteral values as bare words; the default label (Label nil) may be a quoted or a bare numeral",
 		"merged weights: exact for an edge without parallel partner, for unweighted graphs and for small dyadic weights; otherwise within 4*(cnt-1)*2^-53*sum|w| of the exact sum",
+		"weights are any float64 except NaN: parallel edges with infinite weights of one sign sum to that infinity, of both signs to NaN; for finite weights near MaxFloat64 no order of summation is assumed: +Inf (-Inf) is accepted whenever the positive (negative) weights alone reach the overflow threshold, NaN only when both do, a finite result must be within the allowance of the exact sum",
+		"the library sees a graph as a pointer to a struct, as its own graph.IntGraph or as a struct value (the latter two are not comparable with ==), the same for both arguments of Equal; Equal(g, g) is true",
+		"the lists returned by Out may be sub-slices of one array, with capacity running over the lists stored behind them (as in the library's own compressed results): a call after which the content (multiset) of another list has changed is a violation; reordering a list in place and writes into an unused tail are only noted",
+		"Dot.Fprint into a recording writer must give a text that passes the same read-back oracles as Sprint and return nil; into a writer that fails after k bytes it must return a non-nil error and not panic; Dot.Print is called once per run with file descriptor 1 redirected to a temporary file and its text must pass the same oracles",
 		"NodeMarks histories start from NewNodeMarks() or from the zero value of the exported type",
 		"the slices returned by NodeAttrs/EdgeAttrs may share one backing array and have spare capacity: the elements of other lists must not be overwritten")
 	r.Gate("node-id>=1024-visited", "parallel-edges", "self-loop-on-root", "unreachable-nodes",
@@ -2346,11 +2851,24 @@ func c18Run(r *mon.Run) {
 		"marks-zero-value-start", "zero-value-first-mark", "zero-value-mark-at-power-of-two-word",
 		"subgraph-remove-repeated-node", "subgraph-remove-repeated-node-below-kept-edge-target", "subgraph-remove-repeated-edge",
 		"dot-string-is-plain-identifier", "dot-string-is-reserved-word",
-		"dot-shared-attr-array", "dot-shared-label-append-before-next-region")
+		"dot-shared-attr-array", "dot-shared-label-append-before-next-region",
+		"graph-rep-intgraph", "graph-rep-by-value-struct", "graph-layout-packed", "graph-layout-packed-spare-tail",
+		"equal-same-value-twice", "equal-packed-permuted-list-before-other-lists",
+		"weighted-parallel-infinite", "weighted-parallel-both-infinities",
+		"weighted-parallel-sum-overflows", "weighted-parallel-order-dependent-overflow",
+		"dot-fprint-failing-writer", "dot-print-stdout")
 	if err := ref.GSelfTest(); err != nil {
 		r.Inconclusive("reference self-test failed: " + err.Error())
 		return
 	}
+
+	// P: Dot.Print, one call with standard output redirected, before anything
+	// else runs or prints
+	r.Serial("dot-print-stdout", 1, func(w *mon.W, i int) {
+		adj := c18RandGraph(w.Rng)
+		c := &c18Case{Kind: "print", Adj: adj, Dot: c18RandDot(w.Rng, adj), Rep: w.Rng.PickI(0, 2), Lay: w.Rng.Intn(4)}
+		c18Judge(w, c)
+	})
 
 	// A: every digraph on <= 4 nodes
 	offs := []int{0, 1, 3, 19, 531, 66067}
@@ -2391,7 +2909,7 @@ func c18Run(r *mon.Run) {
 		r.Exhaustive("NOT exhaustive at n=5 in the quick tier: a fixed subsample of 2^17 of the 2^25 adjacency matrices (k*0x9E3779B1 mod 2^25), every root")
 		r.Parallel("digraphs-n5-sample", 1<<17, func(w *mon.W, k int) {
 			bits := (uint64(k) * 0x9E3779B1) & (1<<25 - 1)
-			c := &c18Case{Kind: "g", Adj: c18MatrixAdj(5, bits), Roots: c18AllRoots(5), Parts: cheap}
+			c := &c18Case{Kind: "g", Adj: c18MatrixAdj(5, bits), Roots: c18AllRoots(5), Parts: cheap, Rep: [6]int{0, 2, 0, 1, 0, 2}[k%6], Lay: (k / 6) % 4}
 			if k%8 == 0 {
 				c.Parts = c18pAll
 				c18FillExtras(w.Rng, c)
@@ -2404,7 +2922,7 @@ func c18Run(r *mon.Run) {
 		r.Parallel("digraphs-n5", 1<<15, func(w *mon.W, chunk int) {
 			for k := 0; k < 1<<10; k++ {
 				bits := uint64(chunk)<<10 | uint64(k)
-				c := &c18Case{Kind: "g", Adj: c18MatrixAdj(5, bits), Roots: c18AllRoots(5), Parts: cheap}
+				c := &c18Case{Kind: "g", Adj: c18MatrixAdj(5, bits), Roots: c18AllRoots(5), Parts: cheap, Rep: [6]int{0, 2, 0, 1, 0, 2}[k%6], Lay: (k / 6) % 4}
 				c.noDistinct = k%64 != 17
 				if k%64 == 17 {
 					c.Parts = c18pAll
@@ -2434,9 +2952,11 @@ func c18Run(r *mon.Run) {
 			small = append(small, adj)
 		}
 	}
-	r.Exhaustive(fmt.Sprintf("Equal on all %d ordered pairs of multigraphs on 0..2 nodes with out-degree <=3", len(small)*len(small)))
-	r.Parallel("equal-pairs", len(small), func(w *mon.W, i int) {
-		c := &c18Case{Kind: "g", Adj: small[i], Parts: c18pEqual, Eq: small}
+	r.Exhaustive(fmt.Sprintf("Equal on all %d ordered pairs of multigraphs on 0..2 nodes with out-degree <=3, each pair as *struct, graph.IntGraph and struct value, with separate lists and with the three one-array layouts; Equal(g, g) for each", len(small)*len(small)))
+	r.Parallel("equal-pairs", len(small)*12, func(w *mon.W, i int) {
+		// every pair in each of the 3 representations x 4 storage layouts
+		k := i / len(small)
+		c := &c18Case{Kind: "g", Adj: small[i%len(small)], Parts: c18pEqual, Eq: small, Rep: k % 3, Lay: k / 3}
 		c18Judge(w, c)
 	})
 
@@ -2477,7 +2997,7 @@ func c18Run(r *mon.Run) {
 		param := uint64(i/len(lcs))*1000003 + w.Rng.Uint64()%1000
 		_, root := c18Shape(l.shape, l.n, param)
 		c := &c18Case{Kind: "large", Shape: l.shape, N: l.n, Param: param, Roots: []int{root, w.Rng.Intn(l.n)},
-			Parts: c18pOrders | c18pSCC | c18pSimp | c18pBi}
+			Parts: c18pOrders | c18pSCC | c18pSimp | c18pBi, Rep: w.Rng.PickI(0, 0, 0, 2, 2, 1)}
 		w.Hit("large-" + l.shape)
 		c18Judge(w, c)
 	})
